@@ -12,6 +12,8 @@ def run(tier, replay=None):
         return ikeprop.replay_file(v, replay)
     scen = ['estab', 'estab_rekey_ke'] if tier == 'quick' else ['estab_loss', 'estab_rekey_ke', 'estab_pfs', 'init3', 'init_ke']
     ikeprop.run(v, scen, limit=3000 if tier == 'quick' else None)
+    if tier == 'thorough':
+        ikeprop.run_traces(v, 400, 120)            # binding B: kernel SAD of recorded random schedules
     # fault enumeration: one refusal at each NEWSA / DELSA request of each behaviour
     fe = {'runs': 0, 'kinds': {}, 'violations': 0}
     for sc, n in ((('estab', 500), ('init', 200)) if tier == 'quick' else (('estab', 4000), ('init', 842), ('estab_pfs', 1500), ('estab_rekey_ke', 1500))):
